@@ -378,6 +378,178 @@ Proof.
 Qed.
 
 (* =====================================================================
+   archive files
+   ===================================================================== *)
+
+Lemma sub64_small a b : b <= a -> a < u64 -> sub64 a b = a - b.
+Proof.
+  intros H1 H2. unfold sub64. rewrite (N.mod_small b u64) by lia.
+  replace (a + u64 - b) with (a - b + 1 * u64) by lia.
+  rewrite N.mod_add by (unfold u64; lia). apply N.mod_small. lia.
+Qed.
+
+Lemma nth_bound (sl : list N) (B : N) i : 0 < B -> Forall (fun x => x < B) sl -> nth i sl 0 < B.
+Proof.
+  intros HB H. revert i. induction H as [|x r Hx Hr IH]; intros [|i]; cbn [nth]; auto.
+Qed.
+
+(* prollyBinSearch is total on EVERY slice, sorted or not: the invariant lo < target <= hi keeps the
+   interpolated index inside [lft, rht-1], so bits.Div64 never overflows or divides by zero, no
+   index leaves the slice and the interval shrinks at every step. *)
+Lemma psearch_loop_total sl target items :
+  items = N.of_nat (length sl) -> items < 4294967296 -> target < u64 -> Forall (fun x => x < u64) sl ->
+  forall fuel lft rht lo hi,
+    lft <= rht -> rht <= items -> lo < target -> target <= hi -> hi < u64 ->
+    (N.to_nat (rht - lft) < fuel)%nat ->
+    exists i, psearch_loop fuel sl target items lft rht lo hi = SIdx i.
+Proof.
+  intros Hit Hsm Ht Hall. induction fuel as [|f IH]; intros lft rht lo hi Hlr Hri Hlo Hhi Hhu Hf; [lia|].
+  cbn [psearch_loop]. destruct (lft <? rht) eqn:E; [|eexists; reflexivity].
+  assert (Hvr : sub64 hi lo = hi - lo) by (apply sub64_small; lia).
+  assert (Hst : sub64 target lo = target - lo) by (apply sub64_small; lia).
+  rewrite Hvr, Hst.
+  set (vr := hi - lo). set (ir := rht - lft - 1). set (st := target - lo).
+  assert (Hvr0 : 0 < vr) by (unfold vr; lia).
+  assert (Hsv : st <= vr) by (unfold st, vr; lia).
+  assert (Hir : ir < u64) by (unfold ir, u64; lia).
+  assert (Hp1 : st * ir <= vr * ir) by (apply N.mul_le_mono_r; exact Hsv).
+  assert (Hhi' : st * ir / u64 < vr).
+  { apply N.div_lt_upper_bound; [unfold u64; lia|]. nia. }
+  assert (Hq : st * ir / vr <= ir).
+  { apply N.div_le_upper_bound; [lia|]. nia. }
+  assert (Hird : ir = rht - lft - 1) by reflexivity.
+  set (q64 := st * ir / u64) in *. set (q := st * ir / vr) in *.
+  clearbody q64 q ir vr st.
+  destruct ((vr =? 0) || (vr <=? q64)) eqn:E1; [lia|].
+  destruct (i63 <=? q) eqn:E2; [unfold i63 in *; lia|].
+  set (idx := q + lft).
+  assert (Hidx : lft <= idx /\ idx < rht) by (unfold idx; lia).
+  destruct (items <=? idx) eqn:E3; [lia|].
+  destruct (nth (N.to_nat idx) sl 0 <? target) eqn:E4.
+  - destruct (idx + 1 <? items) eqn:E5.
+    + destruct (target <=? nth (N.to_nat (idx + 1)) sl 0) eqn:E6; [eexists; reflexivity|].
+      apply IH; try lia.
+    + apply IH; try lia.
+  - apply IH; try lia.
+    apply nth_bound; [unfold u64; lia | exact Hall].
+Qed.
+
+Theorem psearch_total : forall sl target,
+  N.of_nat (length sl) < 4294967296 -> target < u64 -> Forall (fun x => x < u64) sl ->
+  exists i, psearch sl target = SIdx i.
+Proof.
+  intros sl target Hsm Ht Hall. unfold psearch.
+  destruct (N.of_nat (length sl) =? 0) eqn:E0; [eexists; reflexivity|].
+  destruct (nth (N.to_nat (N.of_nat (length sl) - 1)) sl 0 <? target) eqn:E1; [eexists; reflexivity|].
+  destruct (target <=? nth 0 sl 0) eqn:E2; [eexists; reflexivity|].
+  apply psearch_loop_total; try lia; try assumption; try reflexivity.
+  apply nth_bound; [unfold u64; lia | exact Hall].
+Qed.
+
+(* has / findIndex never panic on any archive index (values are 8-byte and 4-byte fields) *)
+Theorem no_panic_archive_has : forall a h,
+  N.of_nat (length (ax_prefixes a)) < 4294967296 -> addr_prefix h < u64 -> Forall (fun x => x < u64) (ax_prefixes a) ->
+  ahas a h <> Panic.
+Proof.
+  intros a h H1 H2 H3. unfold ahas, afind.
+  destruct (psearch_total _ _ H1 H2 H3) as [i Hi]. rewrite Hi.
+  destruct (af_chunks (ax_f a) <=? i); cbn [bind]; discriminate.
+Qed.
+
+Lemma read_section_np file off len : read_section file off len <> Panic.
+Proof.
+  unfold read_section. destruct (len =? 0); [discriminate|].
+  destruct (i63 <=? off); [discriminate|]. destruct (blen file <? off + len); discriminate.
+Qed.
+
+(* opening an archive panics only through an allocation sized by a footer count of at least 2^28 entries *)
+Theorem archive_open_panic_only_alloc : forall file,
+  open_archive file = Panic ->
+  exists f, load_footer file = Ok f /\ (268435456 <= af_nspans f + 1 \/ 268435456 <= af_chunks f).
+Proof.
+  intros file. unfold open_archive.
+  destruct (load_footer file) as [f| |] eqn:Ef; cbn [bind]; try discriminate.
+  - intro H. exists f. split; [reflexivity|]. revert H. unfold alloc_crash.
+    destruct (4294967296 <=? 8 * (af_nspans f + 1)) eqn:E1; [intros _; lia|].
+    destruct (read_section file _ (8 * af_nspans f)) as [sp| |] eqn:R1; cbn [bind]; try discriminate.
+    + destruct (4294967296 <=? 8 * af_chunks f) eqn:E2; [intros _; lia|].
+      destruct (read_section file _ (8 * af_chunks f)) as [pf| |] eqn:R2; cbn [bind]; try discriminate.
+      * destruct (read_section file _ (8 * af_chunks f)) as [rf| |] eqn:R3; cbn [bind]; try discriminate.
+        -- destruct (4294967296 <=? 12 * af_chunks f) eqn:E3; [intros _; lia|].
+           destruct (read_section file _ (12 * af_chunks f)) as [sf| |] eqn:R4; cbn [bind]; try discriminate.
+           exfalso; exact (read_section_np _ _ _ R4).
+        -- exfalso; exact (read_section_np _ _ _ R3).
+      * exfalso; exact (read_section_np _ _ _ R2).
+    + exfalso; exact (read_section_np _ _ _ R1).
+  - unfold load_footer in Ef. destruct (blen file <? 220) in Ef; [discriminate|].
+    destruct (negb _) in Ef; [discriminate|]. destruct (3 <? _) in Ef; discriminate.
+Qed.
+
+(* a 3-chunk archive written by the real ArchiveStreamWriter (snappy records; format version 3) *)
+Definition a_body : bytes :=
+  [6; 20; 1; 2; 3; 4; 5; 6; 30; 145; 114; 255; 6; 20; 6; 5; 4; 3; 2; 1; 243; 249; 241; 27; 2; 4; 7; 7; 199; 121; 97; 242;
+   0; 0; 0; 0; 0; 0; 0; 12; 0; 0; 0; 0; 0; 0; 0; 24; 0; 0; 0; 0; 0; 0; 0; 32;
+   23; 141; 118; 124; 54; 66; 68; 237; 156; 79; 94; 163; 53; 203; 126; 178; 222; 237; 235; 151; 180; 80; 10; 188;
+   0; 0; 0; 0; 0; 0; 0; 1; 0; 0; 0; 0; 0; 0; 0; 2; 0; 0; 0; 0; 0; 0; 0; 3;
+   224; 84; 235; 179; 204; 74; 240; 172; 43; 48; 122; 134; 63; 24; 216; 217; 7; 244; 69; 204; 37; 19; 122; 229; 98; 213; 39; 210; 25; 98; 28; 170; 111; 18; 16; 147;
+   123; 34; 100; 111; 108; 116; 95; 118; 101; 114; 115; 105; 111; 110; 34; 58; 34; 50; 46; 51; 46; 49; 34; 125].
+Definition a_file : bytes :=
+  a_body ++ [0; 0; 0; 0; 0; 0; 0; 108; 0; 0; 0; 3; 0; 0; 0; 3; 0; 0; 0; 24] ++ repeat 0 192 ++ [3] ++ archive_sig.
+Definition a_h1 : bytes := [23; 141; 118; 124; 54; 66; 68; 237; 224; 84; 235; 179; 204; 74; 240; 172; 43; 48; 122; 134].
+Definition a_h2 : bytes := [156; 79; 94; 163; 53; 203; 126; 178; 63; 24; 216; 217; 7; 244; 69; 204; 37; 19; 122; 229].
+
+Definition a_ref_oob : bytes := set_at a_file 84 [0; 0; 0; 9].                   (* data id of chunk 0 := 9 (3 spans) *)
+Definition a_span_dec : bytes := set_at a_file 32 [0; 0; 0; 0; 0; 0; 1; 0].       (* span offsets 256, 24, 32 *)
+Definition a_ref_swap : bytes := set_at (set_at a_file 84 [0; 0; 0; 2]) 92 [0; 0; 0; 1].
+Definition a_suffix_flip : bytes := set_at a_file 139 [146].
+
+Example a_file_reads_back :
+  exists a, open_archive a_file = Ok a /\ ahas a a_h1 = Ok true
+            /\ aget crc32c a_file a a_h1 = GOk [6; 20; 1; 2; 3; 4; 5; 6]
+            /\ (exists l, aiterate crc32c a_file a = IOk l /\ length l = 3%nat).
+Proof.
+  eexists. split; [vm_compute; reflexivity|]. split; [vm_compute; reflexivity|]. split; [vm_compute; reflexivity|].
+  eexists. split; vm_compute; reflexivity.
+Qed.
+
+(* no_panic for the archive reader is FALSE: nothing in the index is validated and the footer's
+   index checksum is not verified on open *)
+Theorem no_panic_archive_refuted :
+  (exists file a h, open_archive file = Ok a /\ aget crc32c file a h = GPanic /\ aiterate crc32c file a = IPanic)
+  /\ (exists file a h, open_archive file = Ok a /\ aget crc32c file a h = GPanic)
+  /\ (exists file, open_archive file = Panic).
+Proof.
+  split; [|split].
+  - exists a_ref_oob. eexists. exists a_h1. split; [vm_compute; reflexivity|]. split; vm_compute; reflexivity.
+  - exists a_span_dec. eexists. exists a_h2. split; [vm_compute; reflexivity | vm_compute; reflexivity].
+  - exists (set_at a_file 172 [255; 255; 255; 255]). vm_compute. reflexivity.
+Qed.
+
+(* two chunk references exchanged in the index: both lookups succeed with each other's record *)
+Theorem archive_misread_refuted :
+  exists f f' a a' h1 h2 c1 c2, c1 <> c2
+    /\ open_archive f = Ok a /\ open_archive f' = Ok a'
+    /\ aget crc32c f a h1 = GOk c1 /\ aget crc32c f a h2 = GOk c2
+    /\ aget crc32c f' a' h1 = GOk c2 /\ aget crc32c f' a' h2 = GOk c1.
+Proof.
+  exists a_file, a_ref_swap. eexists. eexists. exists a_h1, a_h2, [6; 20; 1; 2; 3; 4; 5; 6], [6; 20; 6; 5; 4; 3; 2; 1].
+  split; [discriminate|]. split; [vm_compute; reflexivity|]. split; [vm_compute; reflexivity|].
+  split; [vm_compute; reflexivity|]. split; [vm_compute; reflexivity|]. split; [vm_compute; reflexivity | vm_compute; reflexivity].
+Qed.
+
+Theorem archive_iterate_mislabel_refuted :
+  exists f f' a a' l l',
+    open_archive f = Ok a /\ open_archive f' = Ok a'
+    /\ aiterate crc32c f a = IOk l /\ aiterate crc32c f' a' = IOk l'
+    /\ map snd l = map snd l' /\ map fst l <> map fst l'.
+Proof.
+  exists a_file, a_suffix_flip. eexists. eexists. eexists. eexists.
+  split; [vm_compute; reflexivity|]. split; [vm_compute; reflexivity|].
+  split; [vm_compute; reflexivity|]. split; [vm_compute; reflexivity|].
+  split; [vm_compute; reflexivity | vm_compute; discriminate].
+Qed.
+
+(* =====================================================================
    journal records
    ===================================================================== *)
 
@@ -524,7 +696,7 @@ Proof. vm_compute. reflexivity. Qed.
 
 Theorem oracle_model : forall i, input_wf i = true -> oracle i (model_obs i) = true.
 Proof.
-  intros [file cnt addrs | data | data | file cnt shorts] Hwf; unfold oracle, model_obs.
+  intros [file cnt addrs | data | data | file cnt shorts | file addrs | op] Hwf; unfold oracle, model_obs; try discriminate Hwf.
   - unfold table_obs. pose proof (no_panic_open_table file cnt) as Ho.
     destruct (open_table file cnt) as [t| |]; [| reflexivity | contradiction].
     cbn [o_open o_res o_iter o_gm o_class].
@@ -548,4 +720,5 @@ Proof.
     cbn [input_wf] in Hwf. rewrite forallb_forall in Hwf.
     assert (Hr : resolve t sh <> Panic) by (first [exact (resolve_np t sh (Hwf _ Hs)) | exact (resolve_np crc32c t sh (Hwf _ Hs))]).
     destruct (resolve t sh); [reflexivity | reflexivity | contradiction].
+  - reflexivity.
 Qed.
